@@ -189,6 +189,23 @@ fn replace(node: xml_dom::XmlNode, value: &str) -> Result<(), Box<dyn Error>> {
     Ok(())
 }
 
+/// The value of an attribute as a literal that is read back as the same value.
+fn escape_attribute_value(value: &str) -> String {
+    let mut literal = String::new();
+    for ch in value.chars() {
+        match ch {
+            '&' => literal.push_str("&amp;"),
+            '<' => literal.push_str("&lt;"),
+            '"' => literal.push_str("&quot;"),
+            '\t' => literal.push_str("&#9;"),
+            '\n' => literal.push_str("&#10;"),
+            '\r' => literal.push_str("&#13;"),
+            _ => literal.push(ch),
+        }
+    }
+    literal
+}
+
 fn clear_child<T>(node: T) -> Result<(), Box<dyn Error>>
 where
     T: xml_dom::Node + xml_dom::NodeMut,
@@ -233,7 +250,8 @@ where
     match child {
         xml_dom::XmlNode::Attribute(v) => {
             let mut n = document_of(&node)?.create_attribute(v.name().as_str())?;
-            n.borrow_mut().set_value(v.value()?.as_str())?;
+            n.borrow_mut()
+                .set_value(escape_attribute_value(v.value()?.as_str()).as_str())?;
 
             if let Some(mut attr) = node.attributes() {
                 attr.borrow_mut().set_named_item(n)?;
